@@ -87,6 +87,9 @@ def representable(rec):
     return True
 
 
+FRESH = [False]
+
+
 def write_file(records, closing):
     """-> (path, per-record outcome list 'ok'|exception, close exception)"""
     from flow.record import RecordWriter
@@ -99,6 +102,11 @@ def write_file(records, closing):
 
     def feed(w):
         for r in records:
+            if FRESH[0]:
+                # what opening another source of the same type does: an equal descriptor object takes the place of the previous one
+                from flow.record import RecordDescriptor
+
+                RecordDescriptor(r._desc.name, [tuple(t) for t in r._desc.get_field_tuples()])
             try:
                 w.write(r)
                 res.append("ok")
@@ -165,9 +173,14 @@ def run_case(case):
 
     h = jhash(case)
     try:
-        records = [recs.build_record(r) for r in case["records"]]
+        recs.FRESH_DESCRIPTORS[0] = bool(case.get("fresh_descriptors"))
+        try:
+            records = [recs.build_record(r) for r in case["records"]]
+        finally:
+            recs.FRESH_DESCRIPTORS[0] = False
     except Exception as e:  # noqa: BLE001
         return {"ev": 1, "h": h, "nt": False, "out": "rejected:" + type(e).__name__}
+    FRESH[0] = bool(case.get("fresh_descriptors"))
     written_obs = [normalise(o) for o in obs_list(records)]
     viol = []
     outs = []
@@ -272,6 +285,12 @@ def cases(tier, seed):
     for k in range(0, 4):
         for seq in itertools.product([V1, V2], repeat=k):
             yield {"kind": "seq", "label": "seq", "records": list(seq)}
+            if k >= 2:
+                # the same type arriving from several sources: equal descriptors that are distinct objects
+                yield {"kind": "seq", "label": "seq-fresh-descriptors", "records": list(seq), "fresh_descriptors": True}
+    EMPTY = rs("a/empty", [], [])
+    for k in (1, 2, 3):
+        yield {"kind": "seq", "label": "seq-fieldless", "records": [EMPTY] * k}
     GA = rs("a/ga", [["string", "s"], ["varint", "n"]], ["'va'", "1"])
     GB = rs("a/gb", [["float", "f"]], ["0.5"])
     yield {"kind": "grouped", "label": "grouped", "records": [{"group": "a/grp", "members": [GA, GB]}]}
